@@ -531,7 +531,51 @@ def w_plan_hash(failure, tier):
     return dict(found=False, note='sort-plan fingerprint: %d cursors replayed against plans differing in one direction, all rejected' % len(reqs))
 
 
+# ---------------------------------------------------------------- pagination walks (U7 page cut / skip step, U14 fast-path guard)
+def w_pagination(failure, tier):
+    """follow next_cursor from the first page until it is absent; the concatenation must equal one request whose limit covers all matches"""
+    docs = []
+    for i in range(14):
+        body = ' '.join(['alpha'] * (1 + i % 3) + ['filler'] * (i % 4))
+        docs.append({"_id": "d%02d" % i, "body": body, "rank": i % 3})
+    add = {"numeric_fields": [{"name": "rank", "i64": True, "fast": True, "stored": True}]}
+    plans = [[], [("_score", "desc")], [("_score", "asc")], [("rank", "asc"), ("_score", "desc")], [("rank", "desc")], [("_score", "asc"), ("rank", "asc")]]
+    batches = [docs[:5], docs[5:10], docs[10:]]
+    def sort(p):
+        return [{"field": f, "order": o} for (f, o) in p]
+    for p in plans:
+        full, err = drive_search({"schema": None, "schema_add": add, "batches": batches, "requests": [dict(REQ_BASE, query="alpha", limit=1000, sort=sort(p))]})
+        if full is None or 'ok' not in full[0]:
+            continue
+        want = [(h['doc_id'], h['score']) for h in full[0]['ok']['hits']]
+        for size in (1, 2, 3, 5):
+            got = []
+            cursor = None
+            for _ in range(40):
+                req = dict(REQ_BASE, query="alpha", limit=size, sort=sort(p))
+                if cursor:
+                    req['cursor'] = cursor
+                out, err = drive_search({"schema": None, "schema_add": add, "batches": batches, "requests": [req]})
+                if out is None or 'ok' not in out[0]:
+                    got.append(('ERROR', str(out)[:200]))
+                    break
+                got += [(h['doc_id'], h['score']) for h in out[0]['ok']['hits']]
+                cursor = out[0]['ok'].get('next_cursor')
+                if not cursor:
+                    break
+            if got != want:
+                return dict(found=True, cmd='%s search <<< hex(json) (one request per page)' % BIN,
+                            input='14 documents in 3 segments, query alpha, sort %s, page size %d, following next_cursor' % (p or 'default', size),
+                            observed='pages concatenate to %s' % [g[0] for g in got],
+                            expected='%s (the hits of a single request with limit 1000, same order and scores)' % [w[0] for w in want])
+    return dict(found=False, note='pagination: %d sort plans x 4 page sizes over 14 documents in 3 segments: every walk equals the single big request' % len(plans))
+
+
 GENERATORS = {
+    ('U14', 'fast_path_guard'): w_pagination,
+    ('U7', 'page_cut'): w_pagination,
+    ('U7', 'skip_search_segment'): w_pagination,
+    ('U7', 'skip_scan_segment'): w_pagination,
     ('U14', 'compute_hash'): w_plan_hash,
     ('U6', 'frag_loop'): w_highlight,
     ('U9', 'decode_hex'): w_cursor,
